@@ -138,6 +138,20 @@ fn run(args: &[String]) -> String {
             };
             if r.is_zero() { "ok:inf".into() } else { format!("ok:{}", hex::encode(r.to_bytes_be())) }
         }
+        "sm9_verify_annex" => {
+            // GM/T 0044.5 Annex A signature example: ks, ID "Alice", message "Chinese IBS standard", (h, S)
+            let ks = gm_sm9::u256::u256_from_hex("000130E78459D78545CB54C587E02CF480CE0B66340F319F348A1D5B1F2DC5F4");
+            let msk = gm_sm9::key::Sm9SignMasterKey { ks, ppubs: gm_sm9::points::TwistPoint::g_mul(&ks) };
+            let hh = gm_sm9::u256::u256_from_hex("823C4B21E4BD2DFE1ED92C606653E996668563152FC33F55D7BFBB9BD9705ADB");
+            let s = gm_sm9::points::Point::from_hex([
+                "73BF96923CE58B6AD0E13E9643A406D8EB98417C50EF1B29CEF9ADB48B6D598C",
+                "856712F1C2E0968AB7769F42A99586AED139D5B8B3E15891827CC2ACED9BAA05",
+            ]);
+            match msk.verify_sign(b"Alice", b"Chinese IBS standard", &hh, &s) {
+                Ok(_) => "ok:accept".into(),
+                Err(e) => format!("err:{:?}", e),
+            }
+        }
         _ => format!("err:unknown op {}", op),
     }
 }
